@@ -428,7 +428,17 @@ def build_world(I, ctx, rng, n_sel, n_pipe, stats, n_hist=2):
     classes = {n: factory.engine(n) for n in registered}
     sup = {n: I.spec_of(classes[n].supported_kind()) for n in registered}
     dummies = []
-    for _ in range(rng.randint(2, 5)):
+    # features of version 1 whose upgrade to LATEST adds other features (read by running the upgrade functions)
+    def upgraded(fs):
+        fs, v = set(fs), 1
+        while v < I.latest:
+            fs = I.pkv.upgrade_functions_map[(v, v + 1)](fs)
+            v += 1
+        return fs
+    v1 = [f for f in I.names if I.pkv.FEATURES_VERSIONS.get(f, (1, None)) == (1, None)]
+    guards = [f for f in v1 if upgraded({f}) - {f}]
+    legacy_name = None
+    for di in range(rng.randint(2, 5)):
         modes = rng.sample(MODES, rng.choice([1, 1, 2]))
         if rng.random() < 0.4 and "COMPILER" not in modes:
             modes[0] = "COMPILER"
@@ -436,6 +446,15 @@ def build_world(I, ctx, rng, n_sel, n_pipe, stats, n_hist=2):
         base = sup[rng.choice(registered)][0]
         feats = sorted(set(rng.sample(base, min(len(base), rng.randint(2, 25)))) | set(rng.sample(range(len(I.names)), rng.randint(0, 3))))
         ver = rng.choice([I.latest] * 6 + [None, 2])
+        if di == 0:
+            # a "legacy" engine: supports version-1 features incl. the upgrade guards but not what the upgrade adds to them, so the same
+            # feature set is supported when declared at LATEST and unsupported when declared at version 1 / None / 2
+            modes = sorted(rng.sample(["ANYTIME_PLANNER", "ONESHOT_PLANNER", "PLAN_VALIDATOR", "COMPILER", "PLAN_REPAIRER", "PORTFOLIO_SELECTOR",
+                                       "REPLANNER"], 2), key=MODES.index)
+            products = set(x for g in guards for x in upgraded({g}) - {g})
+            keep = set(guards) | set(rng.sample(v1, 12))
+            feats = sorted(I.id[f] for f in keep if f not in products)
+            ver = I.latest
         try:
             I.kind((feats, ver))
         except AssertionError:
@@ -447,6 +466,8 @@ def build_world(I, ctx, rng, n_sel, n_pipe, stats, n_hist=2):
                 "any": sorted(rng.sample(range(len(I.AG)), rng.randint(0, 2))),
                 "prog": rand_prog(I, rng) if "COMPILER" in modes else []}
         cname, cls = I.make_dummy(spec)
+        if di == 0:
+            legacy_name = cname
         factory.add_engine(cname, "c32_dummies", cname)
         dummies.append((cname, spec))
         classes[cname] = cls
@@ -616,10 +637,21 @@ def build_world(I, ctx, rng, n_sel, n_pipe, stats, n_hist=2):
         prefs = [n for n in rng.sample(allnames, len(allnames))][: rng.randint(max(2, len(allnames) // 2), len(allnames))]
         if target not in prefs:
             prefs.append(target)
+        version_history = hno % 2 == 0 and legacy_name is not None
+        if version_history:
+            # same feature set declared at LATEST / None / 1 / 2: the upgrade of the older declarations adds features the legacy engine lacks
+            target = legacy_name
+            mode = rng.choice([m for m in MODES if getattr(classes[target], "is_" + I.mode[m].value)()])
+            lf = sup[target][0]
+            gids = [I.id[g] for g in guards if I.id[g] in lf]
+            kind = (sorted(set(rng.sample(gids, rng.randint(1, min(2, len(gids))))) | set(rng.sample(lf, rng.randint(0, 4)))), I.latest)
+            prefs = [target] + [n for n in prefs if n != target]
         factory.preference_list = list(prefs)
         cur = {"og": None, "ck": None, "pk": None, "ag": None}
         for step in range(rng.randint(5, 9)):
-            if step > 0:
+            if step > 0 and version_history and rng.random() < 0.6:
+                kind = (kind[0], rng.choice([v for v in (None, 1, 2, I.latest) if v != kind[1]]))
+            elif step > 0:
                 r = rng.choice(PERTINENT[mode]) if PERTINENT[mode] else None
                 if r is not None:
                     choices = [None] + list(range(enum_len[r]))
